@@ -14,7 +14,8 @@ package core
 //@
 //@ struct pipe
 //@   lock lock level 10
-//@   guarded_by lock: added closing
+//@   guarded_by lock: closing
+//@   single_writer addPipe lock: added
 //@   immutable: id p l d s
 //@   nullable: l d
 //@
@@ -53,3 +54,31 @@ package core
 //@
 //@ func (*pipe).SendMsg
 //@   before call:Send#1 assert msg.Body == old(msg.Body) && msg.Header == old(msg.Header)
+//@
+//@ func newPipe
+//@   ensures result != nil && !result.added && !result.closing && result.s == s && result.d == d && result.l == l && result.p == tp && result.id != 0 && result.id < 2147483648
+//@
+//@ func (*pipeIDAllocator).Get
+//@   ensures result != 0 && result < 2147483648
+//@   at if#3.else assert !has(p.used, id)
+//@   before return#1 assert id != 0 && id < 2147483648 && has(p.used, id)
+//@
+//@ func (*socket).addPipe
+//@   before call:fnvalue#1 assert !held(p.lock)
+//@   before call:AddPipe#1 assert held(p.lock) && !p.closing && !p.added
+//@   before return#1 assert !p.added && !held(p.lock)
+//@   before return#2 assert !p.added && spawned("close") && !held(p.lock)
+//@   before call:fnvalue#2 assert p.added && !held(p.lock)
+//@   before go:pipeConnected#1 assert p.added && p.d != nil
+//@
+//@ func (*pipe).Close$1
+//@   before call:remPipe#1 assert held(p.lock) && p.added && p.closing
+//@   before go:pipeClosed#1 assert p.d != nil && !held(p.lock)
+//@   at if#2.else assert p.d == nil
+//@
+//@ func (*socket).remPipe
+//@   before call:RemovePipe#1 assert true
+//@   before go:remPipe$1#1 assert true
+//@
+//@ func (*socket).remPipe$1
+//@   before call:Free#1 assert true
